@@ -27,8 +27,14 @@ class WAPProtocol(HTTPProtocol):
 
         waptop = self.config.get("protocols.wap.WAPProtocol", "waptop")
         self.waptop = waptop
-        if self.requestparts[1].startswith(waptop):
-            # If it starts with waptop, *guaranteed* to be wap.
+        path = self.requestparts[1]
+        if (
+            path == waptop
+            or path.startswith(waptop + "/")
+            or path.startswith(waptop + "?")
+        ):
+            # If it is waptop or below it, *guaranteed* to be wap.
+            # ("/wapiti.txt" is not below "/wap".)
             self.requestparts[1] = self.requestparts[1][len(waptop) :]
             return True
 
